@@ -1024,6 +1024,8 @@ class Exe:
                 o.length = (b / sz) if self.sem.int_mode != 'bv' else z3.UDiv(b, z3.BitVecVal(sz, 64))
             return v.with_(ct=to)
         byteobj = isinstance(o.ct, TInt) and o.ct.width == 8 and not v.path
+        if byteobj and getattr(self, 'keep_byte_offsets', False):
+            return v.with_(ct=to)      # layout-only functions: the pointer keeps its byte offset in the buffer (never dereferenced there)
         if byteobj and not (isinstance(to, TInt) and to.width == 8):
             # a byte buffer (the arena) viewed at type T: a separate typed component, memoised per (buffer, T).
             # Assumption (listed): regions of the buffer used at different types are disjoint (proved for the
